@@ -544,7 +544,14 @@ def q_arg_flow(ctx, p):
     enc = sym.Enc(fn, funcs, glob)
     src = enc.debug_value(p["param"])
     if src is None:
-        return dict(status="inconclusive", reason="parameter %r not tracked" % p["param"])
+        if not p.get("param_required"):
+            return dict(status="inconclusive", reason="parameter %r not tracked" % p["param"])
+        # the function is REQUIRED to use its captured/own database variable: a call that passes a
+        # database while no such variable exists in the function receives some other value
+        src = z3.Int("missing_%s" % p["param"])
+        missing = True
+    else:
+        missing = False
     s = z3.Solver()
     s.add(enc.extra)
     names = set(p["callee_params"])
@@ -570,7 +577,7 @@ def q_arg_flow(ctx, p):
                 witnesses.append(dict(key="%s: %s gets an untracked %s" % (fn.name.split(">::")[-1], nc, p["param"]),
                                       what="argument %d of %s is not a tracked copy of %s" % (idx, nc, p["param"])))
                 continue
-            r = ctx.check(s, enc.reach[b], actual != src)
+            r = ctx.check(s, enc.reach[b], actual != src) if not missing else ctx.check(s, enc.reach[b])
             if r == z3.unsat:
                 discharged += 1
             elif r == z3.sat:
